@@ -66,6 +66,8 @@ fn share_err_kind(e: &celestia_types::Error) -> String {
                 "AbsenceProof".into()
             } else if m.contains("proof without data") {
                 "EmptyRange".into()
+            } else if m.contains("shares needed overflow") {
+                "SharesNeededOverflow".into()
             } else if m.contains("shares needed") {
                 "SharesNeededMismatch".into()
             } else {
